@@ -530,6 +530,7 @@ class PWLCalibration(keras.layers.Layer):
              for r in self.kernel_regularizer],
         "impute_missing": self.impute_missing,
         "missing_input_value": self.missing_input_value,
+        "missing_output_value": self.missing_output_value,
         "num_projection_iterations": self.num_projection_iterations,
         "split_outputs": self.split_outputs,
         "input_keypoints_type": self.input_keypoints_type,
